@@ -1311,6 +1311,16 @@ def main(repo: str, outdir: str, dry: bool = False) -> int:
         return (HEADER + "import Optyx.Py.PostSupport\n\nnamespace Optyx.Generated\nopen Optyx.Py.Post\n\n" + body
                 + "\nend Optyx.Generated\n")
 
+    def f_buildstep():
+        import py2lean
+        import py2lean_build
+        try:
+            body = py2lean_build.gen_build_step(src("core/compiler.py"))
+        except py2lean.TranslateError as e:
+            raise TranslateError(str(e))
+        return (HEADER + "import Optyx.Py.BuildSupport\n\nset_option linter.unusedVariables false\n\n"
+                "namespace Optyx.Generated\nopen Optyx Optyx.Py\n\n" + body + "\nend Optyx.Generated\n")
+
     def f_svs():
         import py2lean_state
         import py2lean
@@ -1346,7 +1356,7 @@ def main(repo: str, outdir: str, dry: bool = False) -> int:
                         ("ApiGlue", f_apiglue), ("LPGlue", f_lpglue), ("SortGlue", f_sort),
                         ("DegreeStep", f_degstep), ("GradStep", f_gradstep), ("LPStep", f_lpstep), ("JacRowVec", f_jacrowvec),
                         ("ScipyPost", f_scipypost), ("ProblemEdit", f_problemedit),
-                        ("ConstraintFns", f_constraintfns), ("SvsStep", f_svs)):
+                        ("ConstraintFns", f_constraintfns), ("SvsStep", f_svs), ("BuildStep", f_buildstep)):
         path = os.path.join(outdir, fname + ".lean")
         try:
             text = make()
